@@ -538,6 +538,26 @@ func genC03Step(t *rapid.T, r *c03Run) bson.D {
 		if op != "findOneAndDelete" {
 			st = append(st, bson.E{Key: "upsert", Value: rapid.Bool().Draw(t, "rjups")}, bson.E{Key: "after", Value: rapid.Bool().Draw(t, "rjafter")})
 		}
+		// half of the time aim at a stored document that holds documents in
+		// an array: the projection below is then rejected only because of
+		// what that document contains
+		if rapid.Bool().Draw(t, "rjdep") {
+			for _, ns := range []string{"d1.c1", "d1.c2"} {
+				for _, d := range view.docs[ns] {
+					for _, k := range []string{"a", "b", "c"} {
+						if arr, ok := getD(d, k).(bson.A); ok && len(arr) > 0 {
+							if _, isD := arr[0].(bson.D); isD {
+								out := bson.D{{Key: "op", Value: op}, {Key: "ns", Value: ns}, {Key: "filter", Value: bson.D{{Key: "_id", Value: getD(d, "_id")}}}}
+								for _, e := range st[3:] {
+									out = append(out, e)
+								}
+								return append(out, bson.E{Key: "proj", Value: bson.D{{Key: k, Value: bson.D{{Key: "$elemMatch", Value: bson.D{{Key: "b", Value: bson.D{{Key: "$bogus", Value: int32(1)}}}}}}}}})
+							}
+						}
+					}
+				}
+			}
+		}
 		return append(st, bson.E{Key: "proj", Value: rapid.SampledFrom([]bson.D{{{Key: "a", Value: int32(1)}, {Key: "b", Value: int32(0)}}, {{Key: "b", Value: int32(0)}, {Key: "a", Value: true}}, {{Key: "a", Value: "x"}},
 			// rejected only when the matched document holds documents in the array a / b
 			{{Key: "a", Value: bson.D{{Key: "$elemMatch", Value: bson.D{{Key: "b", Value: bson.D{{Key: "$bogus", Value: int32(1)}}}}}}}},
